@@ -105,6 +105,7 @@ static jv *cur_keys;
 static int keep_going;   /* fault-anywhere sweep: do not compare, never stop; only the final bookkeeping is judged */
 static int in_conc;
 static jv *soft_div;      /* an allocation-count-only difference seen earlier in this script */
+static int nfd_bias;      /* standard descriptors the caller runs without (VERIF_CLOSED_STD), added back to the descriptor count */
 static int kept_ledger;   /* library allocations the driver keeps on the caller's behalf between calls (string sinks) */
 static int soft_offset, soft_offset_fd;
 static jv *trace;  /* array of observed records when --trace */
@@ -381,7 +382,7 @@ static jv *obs_key(const char *key, jv *call, long r, jv *extra)
   if (!strcmp(key, "t")) return j_mkint(K->now);
   if (!strcmp(key, "dt")) return j_mkint(K->now - t_call);
   if (!strcmp(key, "blk")) return j_mkint(K->blocks > 0);
-  if (!strcmp(key, "nfd")) return j_mkint(sk_nfds(0) - soft_offset_fd);
+  if (!strcmp(key, "nfd")) return j_mkint(sk_nfds(0) - soft_offset_fd + nfd_bias);
   if (!strcmp(key, "nalloc")) return j_mkint(sk_nalloc() - soft_offset - kept_ledger);
   if (!strcmp(key, "st")) return child_states();
   if (!strcmp(key, "bad")) return j_mkint(rbad);
@@ -1028,8 +1029,12 @@ static void setup(jv *cfg)
   /* standard descriptors of the parent: "fds":[1,1,1] (1 = open on its own terminal-like object, 0 = closed) */
   jv *fds = j_get(cfg, "fds");
   static const char *tn[3] = { "t0", "t1", "t2" };
+  /* VERIF_CLOSED_STD=1: the behavioural scripts replayed by a caller that runs with its stdin and stdout closed (a daemon):
+     nothing in the contract depends on that, so the same predictions hold - the descriptor count is offset accordingly */
+  int closed_std = !fds && getenv("VERIF_CLOSED_STD") != NULL;
+  nfd_bias = closed_std ? 2 : 0;
   for (int i = 0; i < 3; i++) {
-    int open = fds && i < fds->n ? (int) fds->a[i]->i : 1;
+    int open = fds && i < fds->n ? (int) fds->a[i]->i : (closed_std ? i == 2 : 1);
     if (open) { int o = sk_new_obj(OK_TTY, 0); objname_cfg[o] = tn[i]; sk_install(0, i, o, 2, 0, 0); }
   }
   /* extra descriptors: [[fd, cloexec, name]] */
